@@ -2170,3 +2170,33 @@ func (w *World) eachInstrThrough(fn *ssa.Function, depth int, cb func(in ssa.Ins
 	}
 	visit(fn, func(v ssa.Value) ssa.Value { return v }, depth, nil)
 }
+
+// lookupOfRangedKey: v is m[k] (plain lookup) with k the key variable of a range over the
+// same map field m, in a map that never holds nil: the entry is present and non-nil.
+func (w *World) lookupOfRangedKey(v ssa.Value) bool {
+	lk, ok := stripIface(w.resolveLoad(v)).(*ssa.Lookup)
+	if !ok || lk.CommaOk {
+		return false
+	}
+	kx, ok := stripIface(w.resolveLoad(lk.Index)).(*ssa.Extract)
+	if !ok || kx.Index != 1 {
+		return false
+	}
+	nx, ok := kx.Tuple.(*ssa.Next)
+	if !ok {
+		return false
+	}
+	rg, ok := nx.Iter.(*ssa.Range)
+	if !ok {
+		return false
+	}
+	b1, f1, ok1 := fieldLoad(w.resolveLoad(rg.X))
+	b2, f2, ok2 := fieldLoad(w.resolveLoad(lk.X))
+	if !ok1 || !ok2 || f1 != f2 || !w.sameKey(b1, b2) {
+		return false
+	}
+	if _, isMap := f1.Type().Underlying().(*types.Map); !isMap {
+		return false
+	}
+	return w.mapNeverHoldsNil(f1)
+}
